@@ -1,4 +1,5 @@
 """C16 -- gap-degree analysis agrees with the set-based definition (DESIGN 5/C16)."""
+import io
 import re
 
 from . import codec, common, contracts, gen, model
@@ -23,7 +24,8 @@ MIN = {'quick': {'distinct': 300,
                            'treeanalysis.gap_degree': 500,
                            'treeanalysis.disco_order': 500,
                            'cli.treeanalysis': 30},
-                 'strata': {'node gapdeg>=2': 50}},
+                 'strata': {'node gapdeg>=2': 50,
+                            're-analysis after in-place transformation': 300}},
        'thorough': {'distinct': 20000,
                     'hooks': {'treeanalysis.gap_degree_node': 500000,
                               'cli.treeanalysis': 1000}}}
@@ -145,7 +147,6 @@ def api_tree(ctx, spec, rng):
     gd = _try(R.treeanalysis.gap_degree, live)
     exp = model.gapdeg(m)
     # the three notions of discontinuity agree
-    import io
     buf = io.StringIO()
     live2 = common.live_tree(ctx, spec, rng)
     refused = False
@@ -165,6 +166,38 @@ def api_tree(ctx, spec, rng):
         _fail('three-notions-disagree', 'set-based gap degree %d, '
               'gap_degree() %r, bracket writer refused=%r, grammar '
               'context-free=%r' % (exp, gd, refused, cf))
+    if rng.random() < 0.25:
+        # same tree objects changed in place, analysed again
+        try:
+            with common.captured():
+                t2 = R.transform.root_attach(live)
+                if rng.random() < 0.6:
+                    t2 = R.transform.negra_mark_heads(t2)
+                    t2 = R.transform.boyd_split(t2)
+                    t2 = R.transform.raising(t2)
+        except Exception:
+            t2 = None
+        if t2 is not None:
+            m2 = _set_cur(ctx, spec, t2)
+            for n in m2.nodes():
+                _try(R.treeanalysis.gap_degree_node, n.ref)
+                _try(R.trees.terminal_blocks, n.ref)
+            _try(R.treeanalysis.gap_degree, t2)
+            buf2 = io.StringIO()
+            refused2 = False
+            exp2 = model.gapdeg(m2)
+            try:
+                with common.captured():
+                    R.treeoutput.brackets(t2, buf2)
+            except ValueError:
+                refused2 = True
+            except Exception:
+                pass
+            if refused2 != (exp2 > 0):
+                _fail('three-notions-disagree-after-transformation',
+                      'after an in-place transformation: set-based gap '
+                      'degree %d, bracket writer refused=%r' % (exp2, refused2))
+            ctx.stratum('re-analysis after in-place transformation')
     return m
 
 
@@ -240,6 +273,27 @@ def check_report(ctx, bank, out, task, via):
 
 def api_bank(ctx, bank, rng):
     R = ctx.R
+    # treebank level: the grammar of the whole bank is context-free iff every
+    # tree is continuous (whatever the order in which rules were first seen)
+    g, lex = {}, {}
+    disc = False
+    for spec in bank:
+        live = common.live_tree(ctx, spec, rng)
+        disc = disc or model.gapdeg(model.from_spec(spec['root'])) > 0
+        R.grammar.extract(live, g, lex)
+    try:
+        cf = R.grammaranalysis.is_contextfree(g)
+        ctx.hook('bank agreement')
+        if cf != (not disc):
+            ctx.fail('C16:three-notions-disagree-treebank',
+                     {'kind': 'bank', 'bank': bank, 'task': 'agreement',
+                      'via': 'API'},
+                     'treebank has a discontinuous tree: %r, grammar reported '
+                     'context-free: %r' % (disc, cf))
+    except Exception as exc:
+        ctx.fail('C16:is_contextfree-raises', {'kind': 'bank', 'bank': bank,
+                                               'task': 'agreement',
+                                               'via': 'API'}, repr(exc))
     for task in ('GapDegree', 'PosTags', 'SentenceCount'):
         inst = getattr(R.treeanalysis, task)()
         for spec in bank:
@@ -285,7 +339,8 @@ def cli_bank(ctx, bank, rng):
 
 def make_bank(rng, quick):
     k = rng.randint(1, 4 if quick else 8)
-    pools = gen.Pools()
+    pools = gen.Pools(cats=rng.choice([gen.CATS, ['S', 'NP', 'VP']]),
+                      pos=rng.choice([gen.POS, ['NN', 'VV']]))
     bank = []
     for j in range(k):
         n = rng.choice([1, 2, 3, 5, 8, 12]) if rng.random() < 0.6 \
@@ -294,6 +349,8 @@ def make_bank(rng, quick):
                              p_unary=rng.choice([0, 0.15, 0.3]),
                              moves=rng.choice([0, 0, 1, 2, 3, 6, 10]),
                              sid=j + 1))
+        if rng.random() < 0.3:
+            gen.uproot(rng, bank[-1], 0.3)
     return bank
 
 
